@@ -449,6 +449,48 @@ def pool_map(fn, items, procs=None, chunk=8):
     procs = procs or NCPU
     if len(items) < 4 or procs == 1:
         return [fn(x) for x in items]
+    # a sample of the jobs (about 6 %, at least 6, spread over the list) runs in an interpreter started with -O and another
+    # hash seed: behaviour must not depend on assert statements being executed, nor on the hash seed
+    opt_idx = sorted(set(range(0, len(items), max(1, len(items) // max(6, len(items) // 16)))))[:120] if os.environ.get("VERIF_NO_OPT") != "1" else []
+    opt_res = {}
+    opt_proc = None
+    if opt_idx and getattr(fn, "__module__", "").startswith("props."):
+        import pickle
+        import subprocess
+
+        env = dict(os.environ, PYTHONOPTIMIZE="1", PYTHONHASHSEED="4242", VERIF_NO_OPT="1")
+        opt_proc = subprocess.Popen([sys.executable, "-O", os.path.join(os.path.dirname(os.path.abspath(__file__)), "optworker.py")],
+                                    stdin=subprocess.PIPE, stdout=subprocess.PIPE, stderr=subprocess.PIPE, env=env)
+        payload = pickle.dumps((fn.__module__, fn.__name__, [items[k] for k in opt_idx]))
+        import threading
+
+        box = {}
+
+        def _feed():
+            box["out"], box["err"] = opt_proc.communicate(payload)
+
+        th = threading.Thread(target=_feed)
+        th.start()
     # executor workers are not daemonic, so a job may itself start processes (gaftools realign)
     with ProcessPoolExecutor(max_workers=procs, mp_context=mp.get_context("fork")) as ex:
-        return list(ex.map(fn, items, chunksize=chunk))
+        res = list(ex.map(fn, items, chunksize=chunk))
+    if opt_proc is not None:
+        th.join(1800)
+        out = box.get("out", b"")
+        mark = out.rfind(b"\n==RESULT==\n")
+        if opt_proc.returncode != 0 or mark < 0:
+            raise MachineryError("the -O worker failed: " + (box.get("err", b"")[-400:].decode(errors="replace")))
+        for k, r in zip(opt_idx, pickle.loads(out[mark + 12:])):
+            res[k] = _mark_opt(r)       # the result obtained under -O replaces the ordinary one for that job
+    return res
+
+
+def _mark_opt(r):
+    """results obtained under -O are marked (field opt_run), so that a replay file says where it came from"""
+    def tag(c):
+        if isinstance(c, dict):
+            c["opt_run"] = True
+        return c
+    if isinstance(r, list):
+        return [tag(c) for c in r]
+    return tag(r)
